@@ -699,7 +699,7 @@ VResult o_fixed_point(const VCase &c) {
   for (int g = 0; g < P.N; ++g) {
     A5 tu;
     for (int j = 0; j < 5; ++j) {
-      tu[j] = 16. * EPS * (dt * fl[j] + std::abs(before[g].conserved(j)));
+      tu[j] = 64. * EPS * (dt * fl[j] + std::abs(before[g].conserved(j)));
       if (std::abs(S.cell[g]->conserved(j) - before[g].conserved(j)) > tu[j]) {
         r.fail(fmt("uniform state is not steady: cell %d conserved[%d] %.17g -> "
                    "%.17g (allowed %.3g)",
@@ -730,8 +730,27 @@ VResult o_fixed_point(const VCase &c) {
 // executions that differ in the order of the flux sum (exact geometry) or also
 // in the last bits of the cell size (generic geometry)
 std::vector<A5> compare_tolerances(const Problem &P, const StepInfo &info,
-                                   const double loose) {
+                                   const double loose,
+                                   const std::vector<HydroVariables> *ref = nullptr,
+                                   const std::vector<HydroVariables> *perturbed = nullptr) {
   std::vector<A5> tol = info.tol;
+  if (ref && perturbed) {
+    // arbitrary box sides: the cell sizes of a layout differ from those of the
+    // reference in the last bits; how much that matters for this state is
+    // measured by a second reference execution with the sides moved by a few
+    // ulps (ill-conditioned states, e.g. cold hypersonic cells whose pressure
+    // is round-off noise, amplify such differences by many orders)
+    A5 sens = {{0, 0, 0, 0, 0}};
+    for (int g = 0; g < P.N; ++g)
+      for (int j = 0; j < 5; ++j)
+        sens[j] = std::max(sens[j], std::abs((*ref)[g].conserved(j) -
+                                             (*perturbed)[g].conserved(j)));
+    const double ps = std::max(sens[1], std::max(sens[2], sens[3]));
+    sens[1] = sens[2] = sens[3] = ps;
+    for (int g = 0; g < P.N; ++g)
+      for (int j = 0; j < 5; ++j)
+        tol[g][j] += 256. * sens[j];
+  }
   if (loose > 0.) {
     A5 scale = {{0, 0, 0, 0, 0}};
     for (int g = 0; g < P.N; ++g)
@@ -794,9 +813,15 @@ VResult o_layout(const VCase &c) {
   const int nsteps = (int)c.i("nsteps");
   const double loose = P.exact_geometry ? 0. : 1e-8;
   Flat ref0(P);
+  // (arbitrary box sides only) the same problem with the sides moved by a few ulps
+  Problem Pp = P;
+  Pp.side[0] *= 1. + 8. * EPS;
+  Pp.side[1] *= 1. - 8. * EPS;
+  Pp.side[2] *= 1. + 16. * EPS;
+  Flat refp0(Pp);
   double dt0 = 0.;
   StepInfo info0;
-  std::vector<HydroVariables> after0;
+  std::vector<HydroVariables> after0, afterp0;
   std::set<std::array<int, 3>> partitions;
   for (int l = 0; l < nl; ++l) {
     LayoutSpec L = layout_of(c, l);
@@ -808,11 +833,11 @@ VResult o_layout(const VCase &c) {
       return r;
     }
     const Schedule sch0 = L.sch;
-    Flat refl(P); // reference of the later steps of this layout
+    Flat refl(P), reflp(Pp); // references of the later steps of this layout
     for (int step = 0; step < nsteps; ++step) {
       double dt;
       const StepInfo *info;
-      const std::vector<HydroVariables> *want;
+      const std::vector<HydroVariables> *want, *wantp = nullptr;
       StepInfo infol;
       if (step == 0) {
         // all layouts start from the same state: one reference step
@@ -821,10 +846,15 @@ VResult o_layout(const VCase &c) {
           info0 = ref0.step(dt0);
           after0 = ref0.c;
           label_step(info0, r);
+          if (!P.exact_geometry) {
+            refp0.step(dt0);
+            afterp0 = refp0.c;
+          }
         }
         dt = dt0;
         info = &info0;
         want = &after0;
+        wantp = &afterp0;
       } else {
         // later steps: the reference restarts from the state this layout
         // reached (differences do not accumulate)
@@ -834,6 +864,11 @@ VResult o_layout(const VCase &c) {
         label_step(infol, r);
         info = &infol;
         want = &refl.c;
+        if (!P.exact_geometry) {
+          reflp.load(S.cell);
+          reflp.step(dt);
+          wantp = &reflp.c;
+        }
       }
       if (!S.step(dt, L.sch, L.taskgraph)) {
         r.fail(S.error);
@@ -846,7 +881,10 @@ VResult o_layout(const VCase &c) {
       }
       int skipped = 0;
       const std::string diff =
-          compare_states(P, S, *want, compare_tolerances(P, *info, loose),
+          compare_states(P, S, *want,
+                         P.exact_geometry
+                             ? compare_tolerances(P, *info, 0.)
+                             : compare_tolerances(P, *info, loose, want, wantp),
                          ref0.vol, nullptr, nullptr, &skipped);
       if (!diff.empty()) {
         r.fail(fmt("step %d: layout %dx%dx%d (%s, order %d) differs from the "
@@ -1063,7 +1101,7 @@ std::string common_factor(const double F1[5], const double F0[5], bool *limited)
   if (!(s >= 0. && s <= 1. + 4. * EPS))
     return fmt("flux limiter factor %.17g outside [0,1]", s);
   for (int j = 0; j < 5; ++j)
-    if (std::abs(F1[j] - s * F0[j]) > 8. * EPS * std::abs(F0[j]))
+    if (std::abs(F1[j] - s * F0[j]) > 8. * EPS * std::abs(F0[j]) + 16. * DBL_MIN)
       return fmt("limited flux is not one common factor times the unlimited "
                  "flux: factor %.17g from component %d, component %d is %.17g "
                  "instead of %.17g (unlimited %.17g)",
@@ -1182,18 +1220,9 @@ int main(int argc, char **argv) {
   omp_set_num_threads(1);
 #endif
   std::vector<VProp> props;
-  const std::string dom =
-      "1..8 cells per axis (<=256 cells), cell sizes k*2^e with aspect ratios up "
-      "to 1:50 (12% arbitrary box sides), gamma in {5/3,1.4,2,1.1,1.01,U(1.01,2)}, "
-      "density 10^U(-24,3), sound speed 10^U(0,6); fields: uniform, sinusoids, "
-      "random per cell (contrast up to 10^6), two states split by an arbitrary "
-      "plane, supersonic shear (Mach<=30), optional pockets scaled by "
-      "10^U(-30,-3) or exactly 0; dt = f*0.2*min(get_timestep), f in (0,1] (70%), "
-      "1, (1,3]; subgrid layout = generated divisors per axis (1 subgrid, also "
-      "as its own periodic neighbour, and 1 cell per subgrid frequent); the real "
-      "task graph executed sequentially in a generated admissible order "
-      "(fifo/lifo/deepest-first/random/lowest-/highest-subgrid-first) or the "
-      "plain sweep methods phase by phase. ";
+  // (the common domain of the generated problems is described in the rule of
+  // the registry entries)
+  const std::string dom = "generated hydro problem, layout and task order; ";
   {
     GenOpt o;
     o.bcmode = BCM_PERIODIC;
@@ -1202,7 +1231,7 @@ int main(int argc, char **argv) {
         {"conservation_periodic", 6000, [o] { return gen_problem(o); },
          [](const VCase &c) { return o_conservation(c, false, false); },
          dom + "Periodic box. Totals of mass, 3 momentum components and energy "
-               "before/after each step agree within 8 eps * sum over cells of "
+               "before/after each step agree within 16 eps * sum over cells of "
                "(dt*sum|face flux| + |U_old| + |U_new|) unless the positivity "
                "clamp changed a cell by more than round-off (label safeguard). "
                "Non-trivial = non-uniform state and (>=2 subgrids or a wrapped "
@@ -1249,7 +1278,7 @@ int main(int argc, char **argv) {
         {"fixed_point", 2000, [o] { return gen_problem(o); }, o_fixed_point,
          dom + "Uniform state (any velocity along periodic / inflow axes, zero "
                "normal velocity at reflecting / outflow boundaries) is unchanged "
-               "by a step within 16 eps (dt * analytic flux magnitudes + |U|). "
+               "by a step within 64 eps (dt * analytic flux magnitudes + |U|). "
                "Non-trivial = moving gas and >1 cell."});
   }
   props.push_back(
@@ -1296,7 +1325,7 @@ int main(int argc, char **argv) {
                "of a second step restarts from the state the layout reached): "
                "conserved and primitive "
                "variables of every cell agree with the flat reference execution "
-               "(own geometry, every face once by plain loops) within 8 eps "
+               "(own geometry, every face once by plain loops) within 16 eps "
                "(dt*sum|face flux of the cell| + |U_old| + |U_new|) (exact "
                "geometry; +1e-8 of the global scale for arbitrary box sides), "
                "propagated to the primitives; the first layout is executed twice "
